@@ -337,7 +337,7 @@ def run_thorough(rep, srcdir=None, only=None):
 
 
 MANIFEST = {
-    "technique": "atomic state-word transition extraction (bit-level abstract domain) + CFG value-identity and path rules on the serial drain",
+    "technique": "atomic state-word transition extraction (bit-level abstract domain) + CFG value-identity and path rules on the serial drain + concrete evaluation of the override-wakeup predicate (same-thread async->sync order)",
     "level": "every transition that installs a drain owner is checked for the idle-state guard, the barrier-sync fast path for exactness, and the "
              "serial drain for strict head-pop and never invoking sync waiters; these are the per-transition obligations mutual exclusion and FIFO "
              "rest on, for all interleavings; the exclusion theorem itself is not re-proved",
